@@ -398,5 +398,47 @@ pub fn run(ctx: &Ctx) {
     );
     ctx.bound(sub, &format!("every string of <= {} pieces over a {}-piece escaping alphabet in {} string-bearing positions", maxlen, nc, np), true);
     ctx.sample(sub, json!({"input": "a{b: \"Hello\\a Dolly\"}"}));
+    // ---- sequences of visible / invisible statements (serializer bookkeeping between siblings) ----
+    let sub = "statement-sequences";
+    let top: &[&str] = &[
+        "@import url(x.css);", "@import \"y.css\" screen;", "@namespace n url(u);", "@x y;", "%unused{p:q}", "e{}", "n{c:null}", "@media screen{}", "@supports (a:b){}",
+        "a{b:c}", "/* c */", "/*! k */", "d{e:f;g:h}", "@media print{i{j:k}}", "@font-face{l:m}", "@x{o{p:q}}", "@y z{}", "r{s:t;&-u{}}", "v{@extend %unused}",
+    ];
+    let kids: &[&str] = &["b:c;", "d:null;", "&-e{}", "@media print{}", "/* c */", "f{g:h}", "%p{i:j}", "k:l;", "@extend %unused;", "m:{n:o};", "@x y;", "@media print{q:r}"];
+    let nt = top.len() as u64;
+    let nk = kids.len() as u64;
+    let tl = ctx.pick(3u32, 4u32);
+    let n_top: u64 = (1..=tl).map(|k| nt.pow(k)).sum();
+    let n_kid: u64 = (1..=tl).map(|k| nk.pow(k)).sum();
+    let seq = |mut idx: u64, alpha: &[&str]| -> String {
+        let n = alpha.len() as u64;
+        let mut len = 1u32;
+        loop {
+            let c = n.pow(len);
+            if idx < c {
+                break;
+            }
+            idx -= c;
+            len += 1;
+        }
+        let mut parts = Vec::new();
+        for _ in 0..len {
+            parts.push(alpha[(idx % n) as usize]);
+            idx /= n;
+        }
+        parts.join(" ")
+    };
+    par(
+        ctx,
+        sub,
+        n_top + n_kid,
+        |i| json!({"input": if i < n_top { seq(i, top) } else { format!("%unused{{p:q}} w{{{}}}", seq(i - n_top, kids)) }}),
+        |i, l| {
+            let src = if i < n_top { seq(i, top) } else { format!("%unused{{p:q}} w{{{}}}", seq(i - n_top, kids)) };
+            check_one(ctx, sub, &format!("wf:seq:{}", src), &src, Syn::Scss, l);
+        },
+    );
+    ctx.bound(sub, &format!("every sequence of 1..{} top-level statements over a 19-statement alphabet (imports, body-less at-rules, invisible rules, comments, rules) and every sequence of 1..{} children over a 12-child alphabet inside one rule", tl, tl), true);
+    ctx.sample(sub, json!({"input": "@import url(x.css); %unused{p:q} a{b:c}"}));
     ctx.assume("domain: outputs whose declaration values are CSS component values (outputs with bare parenthesised groups, maps or unevaluated operators are counted as excluded); the fixed point is compared on canonical trees (whitespace, number/colour spellings, blank lines erased; comments kept)");
 }
